@@ -67,7 +67,7 @@ func checkC20(r *Run) {
 		if np := r.L.Func("fsimpl/qids", "PathGenerator.NewPath"); np != nil {
 			okAt := false
 			for _, s := range db.ByFunc[np] {
-				if s.Callee == "sync/atomic.AddUint64" {
+				if s.Callee == "sync/atomic.AddUint64" || s.Callee == "sync/atomic.Uint64.Add" {
 					okAt = true
 				}
 			}
